@@ -1096,6 +1096,129 @@ run_wsstream(void *arg)
 	vh_fini();
 }
 
+// ---- REQ: the resend time changes while a request is queued / on the wire ---------------------------
+// The request message is shared between the context (for retransmission) and the pipe that sends
+// it, and who owns what depends on the resend time - which the application may change at any
+// moment.  Every combination of: initial resend time {1 ms, 50 ms, infinite} x the request is
+// submitted {before any peer exists, with a peer connected} x new resend time {infinite, 1 ms, 50 ms}
+// set {while the request is still queued, after it was written} x the raw replier {answers, stays
+// silent, disconnects} - then 120 virtual ms pass (several resend periods) and everything is
+// closed.  Oracles: sanitizers (a retransmission of a message that the pipe already released is a
+// use after free), the accounting allocator, completion of the receive.
+static void
+run_reqresend(void *arg)
+{
+	(void) arg;
+	static const int RT[] = { 1, 50, -1 };
+	vh_init(1);
+	nng_socket   s;
+	nng_ctx      c;
+	nng_listener l;
+	nng_aio     *sa, *ra;
+	VH_OK(nng_req0_open(&s));
+	VH_OK(nng_socket_set_ms(s, NNG_OPT_REQ_RESENDTICK, 5));
+	int usectx = vs_choose(VK_ENV, 2);
+	int r0 = RT[vs_choose(VK_ENV, 3)], r1 = RT[vs_choose(VK_ENV, 3)];
+	int early  = vs_choose(VK_ENV, 2); // submitted before a peer exists
+	int when   = vs_choose(VK_ENV, 2); // option changes: 0 while queued / 1 after it was written
+	int peer   = vs_choose(VK_ENV, 3); // answers / silent / disconnects
+	if (usectx)
+		VH_OK(nng_ctx_open(&c, s));
+#define SETR(v)                                                                           \
+	do {                                                                              \
+		nng_duration d_ = (v) < 0 ? NNG_DURATION_INFINITE : (v);                  \
+		if (usectx)                                                               \
+			VH_OK(nng_ctx_set_ms(c, NNG_OPT_REQ_RESENDTIME, d_));             \
+		else                                                                      \
+			VH_OK(nng_socket_set_ms(s, NNG_OPT_REQ_RESENDTIME, d_));          \
+	} while (0)
+	SETR(r0);
+	VH_OK(nng_listener_create(&l, s, "socket://"));
+	VH_OK(nng_listener_start(l, 0));
+	VH_OK(nng_aio_alloc(&sa, nop_cb, NULL));
+	VH_OK(nng_aio_alloc(&ra, nop_cb, NULL));
+	nng_aio_set_timeout(ra, 200);
+	int fd = -1;
+	if (!early) {
+		fd = vp_attach_more(l);
+		vs_settle();
+		if (fd < 0 || vp_handshake(fd, SP_REP) < 0)
+			vs_fail("harness:peer", "raw replier");
+	}
+	nng_msg *m;
+	VH_OK(nng_msg_alloc(&m, 0));
+	VH_OK(nng_msg_append(m, "request", 7));
+	nng_aio_set_msg(sa, m);
+	if (usectx) {
+		nng_ctx_send(c, sa);
+		nng_ctx_recv(c, ra);
+	} else {
+		nng_socket_send(s, sa);
+		nng_socket_recv(s, ra);
+	}
+	vs_settle();
+	if (when == 0)
+		SETR(r1);
+	if (early) {
+		fd = vp_attach_more(l);
+		vs_settle();
+		if (fd < 0 || vp_handshake(fd, SP_REP) < 0)
+			vs_fail("harness:peer", "raw replier");
+		vs_settle();
+	}
+	if (when == 1)
+		SETR(r1);
+	vs_log("ctx=%d r0=%d r1=%d early=%d when=%d peer=%d", usectx, r0, r1, early, when, peer);
+	// the raw replier reads what is there
+	vp_rd         *rd = calloc(1, sizeof(*rd));
+	const uint8_t *pl;
+	size_t         len;
+	uint32_t       id = 0;
+	vs_sleep(3);
+	while (vp_next_frame(fd, rd, &pl, &len) == 1)
+		if (len >= 4)
+			id = vp_get32(pl);
+	if (peer == 0 && id) {
+		uint8_t h[4];
+		vp_put32(h, id);
+		vp_send(fd, h, 4, "reply", 5);
+	} else if (peer == 2) {
+		// the replier goes away and another one takes its place
+		close(fd);
+		vs_settle();
+		fd = vp_attach_more(l);
+		vs_settle();
+		if (fd < 0 || vp_handshake(fd, SP_REP) < 0)
+			vs_fail("harness:peer", "second raw replier");
+		rd->len = 0;
+		rd->eof = 0;
+	}
+	vs_settle();
+	for (int t = 0; t < 12; t++) { // several resend periods; retransmissions are read and dropped
+		vs_sleep(10);
+		while (fd >= 0 && vp_next_frame(fd, rd, &pl, &len) == 1)
+			;
+	}
+	vs_nontrivial();
+	if (usectx)
+		nng_ctx_close(c);
+	nng_socket_close(s);
+	nng_aio_wait(sa);
+	nng_aio_wait(ra);
+	if (nng_aio_result(sa) != 0 && nng_aio_get_msg(sa) != NULL)
+		nng_msg_free(nng_aio_get_msg(sa));
+	if (nng_aio_result(ra) == 0)
+		nng_msg_free(nng_aio_get_msg(ra));
+	vs_outcome("send=%d recv=%d", nng_aio_result(sa), nng_aio_result(ra));
+	nng_aio_free(sa);
+	nng_aio_free(ra);
+	if (fd >= 0)
+		close(fd);
+	free(rd);
+	vh_fini();
+#undef SETR
+}
+
 // ---- device scenario ----------------------------------------------------------------------
 static void
 run_device(void *arg)
@@ -1427,6 +1550,7 @@ main(int argc, char **argv)
 		c.total              = 1;
 		vx_explore(&c, NULL);
 	}
+	explore("req-resend-time-change", run_reqresend);
 	explore("device", run_device);
 	for (int k = 0; k < 3; k++)
 		explore_fan(k);
